@@ -95,6 +95,7 @@ pub struct W {
 }
 
 const FAR: i64 = 5000;
+const NEAR: i64 = 200;
 const FUND: i64 = 10;
 
 impl Paych {
@@ -395,6 +396,8 @@ impl Scenario for Paych {
             }
             v.push(Act::Update(Voucher { msh: FAR, ..b.clone() }));
             v.push(Act::Update(Voucher { msh: 1, ..b.clone() }));
+            // a height in the near future: later than now, earlier than now + the settle delay
+            v.push(Act::Update(Voucher { msh: NEAR, ..b.clone() }));
             v.push(Act::Update(Voucher { other_channel: true, ..b.clone() }));
             v.push(Act::Update(Voucher { tamper: true, ..b.clone() }));
             v.push(Act::Update(Voucher { amount: -1, ..b.clone() }));
